@@ -98,6 +98,31 @@ PROPS = {
                          "effect trace) tied to the real listeners by exact byte correspondence; the error text of the 503 body is an input of the model"],
         "assumptions": ["loopback TCP delivers in order; 3 s is enough for the proxy to reply and close"],
     },
+    "C01": {
+        "props_module": "Redproxy.Props.C01",
+        "mode": "c01", "model_mode": "relay",
+        "rule": "(a) scripted in-memory streams into the real copy_bidi: random chunkings of both directions, buffer sizes {1,2,7,64,4096,65536}, "
+                "partial-write scripts, a Pending before every read (interleaves the two halves and the ticker), a handshake of k bytes read through "
+                "the BufReader first so that read-ahead must be handed over; exact events (coalesced data / flush / shutdown), result and byte "
+                "counters compared; (b) real http and socks listeners + the real direct connector + a harness origin on loopback, useSplice on and "
+                "off: payloads 0 B .. 400 kB (2 MB thorough) both ways, early data glued to the handshake, either side closing first, slow origin, "
+                "8 (24) concurrent tunnels with distinct payloads; non-trivial = at least one payload byte; distinct = distinct case lines",
+        "nontrivial": lambda c, i: not c.startswith("B ") or " - - " not in c,
+        "trusted_base": ["relay model Redproxy/Model/Relay.lean tied to copy.rs by exact event correspondence on scripted streams; kernel TCP / splice, "
+                         "the listeners' handshakes and the direct connector are exercised end to end (delivered bytes compared by length and hash)"],
+        "assumptions": ["TLS and QUIC transports are not exercised by this check", "loopback TCP delivers in order without loss"],
+    },
+    "C04": {
+        "props_module": "Redproxy.Props.C04",
+        "mode": "c04", "model_mode": "relay",
+        "rule": "(a) scripted streams into the real copy_bidi with EOF or a read error (reset) at the end of either direction; (b) loopback end to end, "
+                "useSplice on and off: client half-closes first / origin half-closes first (the opposite direction must still deliver everything, each "
+                "side must see EOF after its last byte) and client / origin aborts with SO_LINGER 0 (the other socket must be closed within 6 s); "
+                "non-trivial = every case; distinct = distinct case lines",
+        "nontrivial": lambda c, i: True,
+        "trusted_base": ["relay model tied to copy.rs by correspondence (scripted: exact; end to end: observable outcome)"],
+        "assumptions": ["RST timing and TLS close_notify are observed only on plain TCP loopback"],
+    },
     "C08": {
         "props_module": "Redproxy.Props.C08",
         "mode": "c08",
